@@ -1315,4 +1315,332 @@ theorem fits_neg {x : ℚ} {p : ℕ} (h : Fits x p) : Fits (-x) p := by
   exact ⟨-m, k, by push_cast; rw [hm]; ring, by rwa [abs_neg]⟩
 
 
+/-! ### division -/
+
+/-- a quotient N/D ≥ 2^p that fits in p bits (times a power of two) is an integer -/
+theorem dvd_of_fits_quot {σ : ℚ} (hσ : σ = 1 ∨ σ = -1) (N D : ℕ) (hD : 0 < D) (z : ℤ) (p : ℕ)
+    (hq : 2 ^ p ≤ N / D) (hf : Fits (σ * ((N : ℚ) / D) * (B : ℚ) ^ z) p) : D ∣ N := by
+  obtain ⟨m, k, hm, hp⟩ := hf
+  have two_ne : (2 : ℚ) ≠ 0 := by norm_num
+  have hDq : (0 : ℚ) < D := by exact_mod_cast hD
+  -- |m| · 2^k = (N/D) · 2^(64 z)
+  have habs : (N : ℚ) / D * (2 : ℚ) ^ (64 * z) = (m.natAbs : ℚ) * (2 : ℚ) ^ k := by
+    have h1 : |σ * ((N : ℚ) / D) * (B : ℚ) ^ z| = (N : ℚ) / D * (2 : ℚ) ^ (64 * z) := by
+      have : (B : ℚ) ^ z = (2 : ℚ) ^ (64 * z) := by rw [Bq_eq, zpow_mul]; norm_num
+      have hnn : (0 : ℚ) ≤ (N : ℚ) / D := by positivity
+      rw [abs_mul, abs_mul, this, abs_of_nonneg hnn, abs_of_pos (zpow_pos (by norm_num : (0:ℚ) < 2) _)]
+      rcases hσ with h | h <;> rw [h] <;> simp
+    have h2 : |(m : ℚ) * (2 : ℚ) ^ k| = (m.natAbs : ℚ) * (2 : ℚ) ^ k := by
+      rw [abs_mul, abs_of_pos (zpow_pos (by norm_num : (0:ℚ) < 2) k)]
+      congr 1; rw [Nat.cast_natAbs]; push_cast; rfl
+    rw [← h1, hm, h2]
+  have hp' : m.natAbs < 2 ^ p := by
+    have : (m.natAbs : ℤ) < 2 ^ p := by rw [Int.natCast_natAbs]; exact hp
+    exact_mod_cast this
+  have hqq : ((2 ^ p : ℕ) : ℚ) ≤ (N : ℚ) / D := by
+    rw [le_div_iff₀ hDq]
+    have : 2 ^ p * D ≤ N := by
+      calc 2 ^ p * D ≤ N / D * D := Nat.mul_le_mul_right _ hq
+        _ ≤ N := Nat.div_mul_le_self N D
+    exact_mod_cast this
+  have hmq : (m.natAbs : ℚ) < (N : ℚ) / D := lt_of_lt_of_le (by exact_mod_cast hp') hqq
+  -- hence k > 64 z
+  have hk : 64 * z < k := by
+    by_contra hc
+    push Not at hc
+    have : (2 : ℚ) ^ k ≤ (2 : ℚ) ^ (64 * z) := zpow_le_zpow_right₀ (by norm_num) hc
+    have hpos : (0 : ℚ) < (2 : ℚ) ^ k := zpow_pos (by norm_num) _
+    have hmn : (0 : ℚ) ≤ (m.natAbs : ℚ) := by positivity
+    nlinarith
+  obtain ⟨j, hj⟩ : ∃ j : ℕ, k = 64 * z + j := ⟨(k - 64 * z).toNat, by omega⟩
+  rw [hj, zpow_add₀ two_ne, zpow_natCast] at habs
+  have hz : (2 : ℚ) ^ (64 * z) ≠ 0 := zpow_ne_zero _ two_ne
+  have : (N : ℚ) = (m.natAbs : ℚ) * 2 ^ j * D := by
+    have := habs; field_simp at this; linarith
+  have hn : N = m.natAbs * 2 ^ j * D := by exact_mod_cast this
+  exact ⟨m.natAbs * 2 ^ j, by rw [hn]; ring⟩
+
+theorem quot_spec (prec : ℕ) (hp : 1 ≤ prec) (neg : Bool) (N D : ℕ) (hD : 0 < D) (rexp : ℤ)
+    (hlo : B ^ (prec - 1) ≤ N / D) (hhi : N / D < B ^ (prec + 1)) :
+    WF (quotFinish prec neg (N / D) rexp) ∧
+    |toQ (quotFinish prec neg (N / D) rexp)
+        - (if neg then -1 else 1) * ((N : ℚ) / D) * (B : ℚ) ^ (rexp - ((prec : ℤ) + 1))|
+      < eps prec * |(if neg then -1 else 1) * ((N : ℚ) / D) * (B : ℚ) ^ (rexp - ((prec : ℤ) + 1))| ∧
+    (Fits ((if neg then -1 else 1) * ((N : ℚ) / D) * (B : ℚ) ^ (rexp - ((prec : ℤ) + 1))) (PREC_TO_BITS prec) →
+      toQ (quotFinish prec neg (N / D) rexp)
+        = (if neg then -1 else 1) * ((N : ℚ) / D) * (B : ℚ) ^ (rexp - ((prec : ℤ) + 1))) := by
+  set q := N / D with hq
+  have hσ : (if neg = true then (-1 : ℚ) else 1) = 1 ∨ (if neg = true then (-1 : ℚ) else 1) = -1 := by
+    cases neg <;> simp
+  have hv := val_toLimbs_of_lt hhi
+  have hlen := toLimbs_length (prec + 1) q
+  have hlim := Limbs_toLimbs (prec + 1) q
+  have hsplit := val_take_top _ prec hlen
+  -- value and format of the result
+  have key : WF (quotFinish prec neg q rexp) ∧
+      toQ (quotFinish prec neg q rexp) = (if neg then -1 else 1) * (q : ℚ) * (B : ℚ) ^ (rexp - ((prec : ℤ) + 1)) := by
+    unfold quotFinish
+    simp only
+    generalize toLimbs (prec + 1) q = rp at *
+    by_cases h0 : topLimb rp = 0
+    · simp only [h0, if_true]
+      have hval : val (rp.take (prec + 1 - 1)) = q := by rw [Nat.add_sub_cancel, ← hv, hsplit, h0]; simp
+      have hl2 : (rp.take (prec + 1 - 1)).length = prec := by rw [List.length_take, hlen]; omega
+      have hne : rp.take (prec + 1 - 1) ≠ [] := by intro h; rw [h] at hl2; simp at hl2; omega
+      refine ⟨WF_mk_neg (Limbs_take hlim _) ?_ (by omega) (fun h => absurd h hne), ?_⟩
+      · apply top_ne_zero_of_val_ge _ (Limbs_take hlim _) hne
+        rw [hl2, hval]; exact hlo
+      · rw [toQ_mk_neg, hval, hl2]; congr 2; push_cast; ring
+    · simp only [h0, if_false, Nat.sub_zero]
+      have htk : rp.take (prec + 1) = rp := List.take_of_length_le (by omega)
+      rw [htk]
+      have hne : rp ≠ [] := by intro h; rw [h] at hlen; simp at hlen
+      refine ⟨WF_mk_neg hlim ?_ (by omega) (fun h => absurd h hne), ?_⟩
+      · rw [getLast?_eq_topLimb rp hne]; simpa using h0
+      · rw [toQ_mk_neg, hv, hlen]; congr 2; push_cast; ring
+  obtain ⟨k1, k2⟩ := key
+  have hDq : (0 : ℚ) < D := by exact_mod_cast hD
+  -- q ≤ N/D < q + 1
+  have hqle : (q : ℚ) ≤ (N : ℚ) / D := by
+    rw [le_div_iff₀ hDq]; exact_mod_cast Nat.div_mul_le_self N D
+  have hqlt : (N : ℚ) / D < (q : ℚ) + 1 := by
+    rw [div_lt_iff₀ hDq]
+    have : N < (q + 1) * D := by
+      have := Nat.lt_succ_iff.mpr (le_refl (N / D))
+      rw [hq]; exact (Nat.div_lt_iff_lt_mul hD).mp (Nat.lt_succ_self _)
+    exact_mod_cast this
+  have hQ : (0 : ℚ) < (B : ℚ) ^ (prec - 1) := pow_pos Bq_pos _
+  have hqQ : (B : ℚ) ^ (prec - 1) ≤ (q : ℚ) := by exact_mod_cast hlo
+  have hs : (0 : ℚ) < (B : ℚ) ^ (rexp - ((prec : ℤ) + 1)) := zpow_pos Bq_pos _
+  refine ⟨k1, ?_, ?_⟩
+  · rw [k2]
+    have e : ∀ σ : ℚ, (σ = 1 ∨ σ = -1) →
+        |σ * (q : ℚ) * (B : ℚ) ^ (rexp - ((prec : ℤ) + 1)) - σ * ((N : ℚ) / D) * (B : ℚ) ^ (rexp - ((prec : ℤ) + 1))|
+          = ((N : ℚ) / D - q) * (B : ℚ) ^ (rexp - ((prec : ℤ) + 1)) ∧
+        |σ * ((N : ℚ) / D) * (B : ℚ) ^ (rexp - ((prec : ℤ) + 1))| = (N : ℚ) / D * (B : ℚ) ^ (rexp - ((prec : ℤ) + 1)) := by
+      intro σ hs'
+      have hnn : (0 : ℚ) ≤ (N : ℚ) / D := by positivity
+      constructor
+      · rw [show σ * (q : ℚ) * (B : ℚ) ^ (rexp - ((prec : ℤ) + 1)) - σ * ((N : ℚ) / D) * (B : ℚ) ^ (rexp - ((prec : ℤ) + 1))
+            = -(σ * (((N : ℚ) / D - q) * (B : ℚ) ^ (rexp - ((prec : ℤ) + 1)))) by ring, abs_neg, abs_mul,
+          abs_of_nonneg (mul_nonneg (by linarith) (le_of_lt hs))]
+        rcases hs' with h | h <;> rw [h] <;> simp
+      · rw [abs_mul, abs_mul, abs_of_nonneg hnn, abs_of_pos hs]
+        rcases hs' with h | h <;> rw [h] <;> simp
+    obtain ⟨e1, e2⟩ := e _ hσ
+    rw [e1, e2, eps_eq, div_mul_eq_mul_div, lt_div_iff₀ hQ]
+    have : ((N : ℚ) / D - q) * (B : ℚ) ^ (prec - 1) < 4 * ((N : ℚ) / D) := by nlinarith
+    nlinarith
+  · intro hf
+    have hpb : B ^ (prec - 1) = 2 ^ PREC_TO_BITS prec := Bpow_eq_two_pow prec
+    have hdvd := dvd_of_fits_quot hσ N D hD _ _ (by rw [← hpb]; exact hlo) hf
+    obtain ⟨c, hc⟩ := hdvd
+    have : (N : ℚ) / D = (q : ℚ) := by
+      rw [hq, hc, Nat.mul_div_cancel_left c hD]; push_cast; field_simp
+    rw [k2, this]
+
+
+
+/-- the dividend selection of div.c:92-103 in natural numbers -/
+theorem div_core (prec : ℕ) (hp : 1 ≤ prec) (ud vd : List Nat) (hlu : Limbs ud) (hnu : ud ≠ []) (htu : ud.getLast? ≠ some 0)
+    (hlv : Limbs vd) (hnv : vd ≠ []) (htv : vd.getLast? ≠ some 0)
+    (chop zeros : ℕ) (hchop : chop = ud.length - (vd.length + prec)) (hzeros : zeros = (vd.length + prec) - ud.length) :
+    (val (ud.drop chop) * B ^ zeros) / val vd = (val ud * B ^ zeros) / (B ^ chop * val vd) ∧
+    0 < B ^ chop * val vd ∧
+    B ^ (prec - 1) ≤ (val ud * B ^ zeros) / (B ^ chop * val vd) ∧
+    (val ud * B ^ zeros) / (B ^ chop * val vd) < B ^ (prec + 1) := by
+  have hV0 := val_pos_of_top hnv htv
+  have hV1 := val_lt vd hlv
+  have hV2 := val_ge_of_top vd hnv htv
+  have hnvl : 0 < vd.length := List.length_pos_of_ne_nil hnv
+  have hsplit := val_take_drop_any ud chop
+  have hlo := val_take_lt hlu chop
+  have hdl : (ud.drop chop).length = ud.length - chop := List.length_drop
+  have hdne : ud.drop chop ≠ [] := by
+    intro h; rw [h] at hdl; simp at hdl
+    have := List.length_pos_of_ne_nil hnu; omega
+  have hdt : (ud.drop chop).getLast? ≠ some 0 := by
+    have := @getLast?_top (ud.length - chop) ud (by have := List.length_pos_of_ne_nil hnu; omega)
+    unfold top at this
+    rw [show ud.length - (ud.length - chop) = chop by omega] at this
+    rw [this]; exact htu
+  have hT1 := val_ge_of_top _ hdne hdt
+  have hT2 := val_lt _ (Limbs_drop hlu chop)
+  have e1 : (val (ud.drop chop) * B ^ zeros) / val vd = (val ud * B ^ zeros) / (B ^ chop * val vd) := by
+    rcases Nat.eq_zero_or_pos chop with h | h
+    · rw [h]; simp
+    · have hz : zeros = 0 := by omega
+      rw [hz, pow_zero, mul_one, mul_one, ← Nat.div_div_eq_div_mul]
+      congr 1
+      rw [hsplit, Nat.add_mul_div_left _ _ (Bpow_pos chop), Nat.div_eq_of_lt hlo, zero_add]
+  refine ⟨e1, Nat.mul_pos (Bpow_pos _) hV0, ?_, ?_⟩
+  · rw [← e1, Nat.le_div_iff_mul_le hV0]
+    calc B ^ (prec - 1) * val vd ≤ B ^ (prec - 1) * B ^ vd.length := Nat.mul_le_mul_left _ (le_of_lt hV1)
+      _ = B ^ (prec - 1 + vd.length) := (pow_add _ _ _).symm
+      _ ≤ B ^ ((ud.drop chop).length - 1 + zeros) := Nat.pow_le_pow_right B_pos (by rw [hdl]; omega)
+      _ = B ^ ((ud.drop chop).length - 1) * B ^ zeros := pow_add _ _ _
+      _ ≤ val (ud.drop chop) * B ^ zeros := Nat.mul_le_mul_right _ hT1
+  · rw [← e1, Nat.div_lt_iff_lt_mul hV0]
+    calc val (ud.drop chop) * B ^ zeros < B ^ (ud.drop chop).length * B ^ zeros :=
+          Nat.mul_lt_mul_of_pos_right hT2 (Bpow_pos _)
+      _ = B ^ ((ud.drop chop).length + zeros) := (pow_add _ _ _).symm
+      _ = B ^ (prec + 1 + (vd.length - 1)) := by congr 1; rw [hdl]; omega
+      _ = B ^ (prec + 1) * B ^ (vd.length - 1) := pow_add _ _ _
+      _ ≤ B ^ (prec + 1) * val vd := Nat.mul_le_mul_left _ hV2
+
+
+theorem div_spec (prec : ℕ) (hp : 1 ≤ prec) (u v : F) (hu : OpWF u) (hv : OpWF v)
+    (hu0 : u.size ≠ 0) (hv0 : v.size ≠ 0) :
+    ∃ r, div prec u v = .ok r ∧ WF r ∧
+      |toQ r - toQ u / toQ v| < eps prec * |toQ u / toQ v| ∧
+      (Fits (toQ u / toQ v) (PREC_TO_BITS prec) → toQ r = toQ u / toQ v) := by
+  have hnu : u.d ≠ [] := fun h => hu0 (by have := hu.2.1; rw [h] at this; simp at this; omega)
+  have hnv : v.d ≠ [] := fun h => hv0 (by have := hv.2.1; rw [h] at this; simp at this; omega)
+  set chop := u.d.length - (v.d.length + prec) with hchop
+  set zeros := (v.d.length + prec) - u.d.length with hzeros
+  obtain ⟨c1, c2, c3, c4⟩ := div_core prec hp u.d v.d hu.1 hnu hu.2.2.1 hv.1 hnv hv.2.2.1 chop zeros hchop hzeros
+  have hV0 := val_pos_of_top hnv hv.2.2.1
+  have hU0 := val_pos_of_top hnu hu.2.2.1
+  obtain ⟨q1, q2, q3⟩ := quot_spec prec hp ((decide (u.size < 0)) != (decide (v.size < 0))) _ _ c2 (u.exp - v.exp + 1) c3 c4
+  -- the exact quotient in the form used by quot_spec
+  have hex : toQ u / toQ v =
+      (if ((decide (u.size < 0)) != (decide (v.size < 0))) = true then (-1 : ℚ) else 1) *
+        (((val u.d * B ^ zeros : ℕ) : ℚ) / ((B ^ chop * val v.d : ℕ) : ℚ)) * (B : ℚ) ^ (u.exp - v.exp + 1 - ((prec : ℤ) + 1)) := by
+    rw [sg_mul, toQ_sg u, toQ_sg v]
+    have hVq : (val v.d : ℚ) ≠ 0 := by exact_mod_cast (ne_of_gt hV0)
+    have hsv : sg v ≠ 0 := by rcases sg_cases v with h | h <;> rw [h] <;> norm_num
+    have hsd : sg u / sg v = sg u * sg v := by rcases sg_cases v with h | h <;> rw [h] <;> ring
+    have e1 : (B : ℚ) ^ (u.exp - (u.d.length : ℤ)) / (B : ℚ) ^ (v.exp - (v.d.length : ℤ)) * (B : ℚ) ^ chop
+        = (B : ℚ) ^ zeros * (B : ℚ) ^ (u.exp - v.exp + 1 - ((prec : ℤ) + 1)) := by
+      rw [← zpow_sub₀ Bq_ne, ← zpow_natCast, ← zpow_natCast, ← zpow_add₀ Bq_ne, ← zpow_add₀ Bq_ne]
+      congr 1; omega
+    push_cast
+    have hBc : (B : ℚ) ^ chop ≠ 0 := pow_ne_zero _ Bq_ne
+    have hBv : (B : ℚ) ^ (v.exp - (v.d.length : ℤ)) ≠ 0 := zpow_ne_zero _ Bq_ne
+    calc sg u * ((val u.d : ℚ) * (B : ℚ) ^ (u.exp - (u.d.length : ℤ))) / (sg v * ((val v.d : ℚ) * (B : ℚ) ^ (v.exp - (v.d.length : ℤ))))
+        = (sg u / sg v) * ((val u.d : ℚ) / (val v.d : ℚ)) * ((B : ℚ) ^ (u.exp - (u.d.length : ℤ)) / (B : ℚ) ^ (v.exp - (v.d.length : ℤ)) * (B : ℚ) ^ chop) / (B : ℚ) ^ chop := by
+          field_simp
+      _ = _ := by rw [hsd, e1]; field_simp
+  refine ⟨_, ?_, q1, ?_, ?_⟩
+  · unfold div
+    rw [if_neg hv0, if_neg hu0]
+    simp only
+    have h1 : (max (-(((prec + 1 : ℕ) : ℤ) - ((u.d.length : ℤ) - (v.d.length : ℤ) + 1))) 0).toNat = chop := by omega
+    have h2 : (((prec + 1 : ℕ) : ℤ) - ((u.d.length : ℤ) - (v.d.length : ℤ) + 1) + (chop : ℤ)).toNat = zeros := by omega
+    rw [h1, h2, c1]
+  · rw [hex]; exact q2
+  · rw [hex]; exact q3
+
+
+
+/-- a one-limb positive operand (how div_ui.c / ui_div.c / sub_ui.c view their `ui` argument) -/
+def ofLimb (w : ℕ) : F := ⟨2, 1, 1, [w]⟩
+
+theorem toQ_ofLimb (w : ℕ) : toQ (ofLimb w) = w := by simp [toQ, ofLimb, val]
+
+theorem OpWF_ofLimb (w : ℕ) (h0 : w ≠ 0) (hB : w < B) : OpWF (ofLimb w) :=
+  ⟨Limbs_cons.mpr ⟨hB, Limbs_nil⟩, rfl, by simpa [ofLimb] using h0, by simp [ofLimb]⟩
+
+theorem div_ui_eq_div (prec : ℕ) (u : F) (w : ℕ) (h0 : w ≠ 0) : div_ui prec u w = div prec u (ofLimb w) := by
+  unfold div_ui div ofLimb
+  rw [if_neg h0, if_neg (by norm_num : (1 : ℤ) ≠ 0)]
+  by_cases hu : u.size = 0
+  · rw [if_pos hu, if_pos hu]
+  · rw [if_neg hu, if_neg hu]
+    simp only [List.length_cons, List.length_nil]
+    have hneg : (decide (u.size < 0) != decide ((1 : ℤ) < 0)) = decide (u.size < 0) := by simp
+    have hv : val [w] = w := by simp [val]
+    have hchop : (max (-(((prec + 1 : ℕ) : ℤ) - ((u.d.length : ℤ) - ((0 + 1 : ℕ) : ℤ) + 1))) 0).toNat = u.d.length - (prec + 1) := by omega
+    have hlen : (top (prec + 1) u.d).length = min (prec + 1) u.d.length := top_length _ _
+    rw [hneg, hv, hchop]
+    have hz : (((prec + 1 : ℕ) : ℤ) - ((u.d.length : ℤ) - ((0 + 1 : ℕ) : ℤ) + 1) + ((u.d.length - (prec + 1) : ℕ) : ℤ)).toNat
+        = prec + 1 - (top (prec + 1) u.d).length := by rw [hlen]; omega
+    rw [hz, show u.exp - 1 + 1 = u.exp by ring]
+    rfl
+
+theorem ui_div_eq_div (prec : ℕ) (w : ℕ) (v : F) (h0 : w ≠ 0) (hv : OpWF v) :
+    ui_div prec w v = div prec (ofLimb w) v := by
+  unfold ui_div div ofLimb
+  by_cases hv0 : v.size = 0
+  · rw [if_pos hv0, if_pos hv0]
+  · rw [if_neg hv0, if_neg hv0, if_neg h0, if_neg (by norm_num : (1 : ℤ) ≠ 0)]
+    simp only [List.length_cons, List.length_nil]
+    have hnv : 0 < v.d.length := by rw [hv.2.1]; omega
+    have hneg : (decide ((1 : ℤ) < 0) != decide (v.size < 0)) = decide (v.size < 0) := by simp
+    have hchop : (max (-(((prec + 1 : ℕ) : ℤ) - (((0 + 1 : ℕ) : ℤ) - (v.d.length : ℤ) + 1))) 0).toNat = 0 := by omega
+    rw [hneg, hchop]
+    have hz : (((prec + 1 : ℕ) : ℤ) - (((0 + 1 : ℕ) : ℤ) - (v.d.length : ℤ) + 1) + ((0 : ℕ) : ℤ)).toNat = prec + v.d.length - 1 := by omega
+    rw [hz]
+    simp [val]
+
+
+/-- the numerator / denominator of an mpq as mpf operands with exponent = limb count (integers) -/
+def ofInt (z : ℤ) : F :=
+  ⟨2, if z ≥ 0 then ((natLimbs z.natAbs).length : ℤ) else -((natLimbs z.natAbs).length : ℤ), (natLimbs z.natAbs).length, natLimbs z.natAbs⟩
+
+theorem natLimbs_ne_nil {n : ℕ} (h : n ≠ 0) : natLimbs n ≠ [] := by
+  intro hnil; have := (natLimbs_spec n).1; rw [hnil] at this; simp at this; exact h this.symm
+
+theorem ofInt_size_ne {z : ℤ} (h : z ≠ 0) : (ofInt z).size ≠ 0 := by
+  have := List.length_pos_of_ne_nil (natLimbs_ne_nil (by omega : z.natAbs ≠ 0))
+  unfold ofInt; dsimp only
+  by_cases hz : z ≥ 0
+  · rw [if_pos hz]; omega
+  · rw [if_neg hz]; omega
+
+theorem OpWF_ofInt (z : ℤ) : OpWF (ofInt z) := by
+  obtain ⟨n1, n2, n3, n4⟩ := natLimbs_spec z.natAbs
+  refine ⟨n2, ?_, n3, ?_⟩
+  · unfold ofInt; dsimp only; by_cases hz : z ≥ 0 <;> simp [hz]
+  · intro h
+    unfold ofInt at h ⊢; dsimp only at h ⊢
+    have : (natLimbs z.natAbs).length = 0 := by
+      by_cases hz : z ≥ 0
+      · rw [if_pos hz] at h; omega
+      · rw [if_neg hz] at h; omega
+    rw [this]; rfl
+
+theorem toQ_ofInt (z : ℤ) : toQ (ofInt z) = z := by
+  obtain ⟨n1, _, _, _⟩ := natLimbs_spec z.natAbs
+  unfold ofInt
+  rw [toQ_mk, n1, sub_self, zpow_zero, mul_one, Nat.cast_natAbs]
+  by_cases hz : z ≥ 0
+  · rw [if_pos hz, abs_of_nonneg hz]; simp
+  · rw [if_neg hz, abs_of_neg (by omega)]; simp
+
+theorem set_q_eq_div (prec : ℕ) (num : ℤ) (den : ℕ) (hn : num ≠ 0) (hd : den ≠ 0) :
+    div prec (ofInt num) (ofInt den) = .ok (set_q prec num den) := by
+  have hdn : (ofInt (den : ℤ)).size ≠ 0 := ofInt_size_ne (by omega)
+  have hnn : (ofInt num).size ≠ 0 := ofInt_size_ne hn
+  unfold div
+  rw [if_neg hdn, if_neg hnn]
+  unfold set_q
+  rw [if_neg hn]
+  have hden : val (natLimbs den) = den := (natLimbs_spec den).1
+  have hneg : (decide ((ofInt num).size < 0) != decide ((ofInt (den : ℤ)).size < 0)) = decide (num < 0) := by
+    have h1 : ¬ (ofInt (den : ℤ)).size < 0 := by
+      unfold ofInt; dsimp only; rw [if_pos (by omega)]; omega
+    have h2 : (ofInt num).size < 0 ↔ num < 0 := by
+      have := List.length_pos_of_ne_nil (natLimbs_ne_nil (by omega : num.natAbs ≠ 0))
+      unfold ofInt; dsimp only
+      by_cases hz : num ≥ 0
+      · rw [if_pos hz]; omega
+      · rw [if_neg hz]; omega
+    simp [h1, h2]
+  rw [hneg]
+  simp only [ofInt, Int.natAbs_natCast, hden]
+  congr 1
+  by_cases hz : (((prec + 1 : ℕ) : ℤ) - (((natLimbs num.natAbs).length : ℤ) - ((natLimbs den).length : ℤ) + 1)) > 0
+  · rw [if_pos hz]
+    have h1 : (max (-(((prec + 1 : ℕ) : ℤ) - (((natLimbs num.natAbs).length : ℤ) - ((natLimbs den).length : ℤ) + 1))) 0).toNat = 0 := by omega
+    rw [h1]; simp
+  · rw [if_neg hz]
+    have h1 : (max (-(((prec + 1 : ℕ) : ℤ) - (((natLimbs num.natAbs).length : ℤ) - ((natLimbs den).length : ℤ) + 1))) 0).toNat
+        = (-(((prec + 1 : ℕ) : ℤ) - (((natLimbs num.natAbs).length : ℤ) - ((natLimbs den).length : ℤ) + 1))).toNat := by omega
+    rw [h1]
+    have h2 : (((prec + 1 : ℕ) : ℤ) - (((natLimbs num.natAbs).length : ℤ) - ((natLimbs den).length : ℤ) + 1) +
+        (((-(((prec + 1 : ℕ) : ℤ) - (((natLimbs num.natAbs).length : ℤ) - ((natLimbs den).length : ℤ) + 1))).toNat : ℕ) : ℤ)).toNat = 0 := by omega
+    rw [h2]; simp
+
+
 end Mpir.Mpf
